@@ -13,6 +13,8 @@ fn main() {
     match args[1].as_str() {
         "bitops" => vharness::bitops::replay(&args[2], &mut out),
         "prim" => vharness::prim::replay(&args[2], &mut out),
+        "lexer" => vharness::lexer::replay(&args[2], &mut out),
+        "relayout" => vharness::lexer::relayout(&args[2], &mut out),
         other => {
             eprintln!("unknown domain {}", other);
             std::process::exit(2);
